@@ -116,6 +116,10 @@ fn build(main: &[u8], part: &Option<Vec<u8>>) -> Outcome {
 
 /// `base` is the result of build_str(print_canonical(nodes)), which the caller has found to be right
 pub fn check_one(ctx: &Ctx, nodes: &[Node], base: &BuildResult, rng: &mut Rng, prefix: &str) {
+    // (the thorough tier runs a thousand times as many programs: every fourth of them gets a variant)
+    if ctx.tier == fw::Tier::Thorough && rng.below(4) != 0 {
+        return;
+    }
     let kind = rng.usize(KINDS.len());
     let Some((main, part)) = make(nodes, kind, rng) else { return };
     let out = build(&main, &part);
